@@ -396,6 +396,15 @@ def c_int_maxmin(m, st, f, a):
     return IntV(z3.If(le, zx, zy), ty)
 
 
+@contract(r'^<(u8|u16|u32|u64|usize|i32|i64|isize) as Ord>::clamp$')
+def c_int_clamp(m, st, f, a):
+    x, lo, hi = a
+    if bool_val(m, st, binop('Gt', lo, hi)): raise Panic('assertion failed: min <= max')
+    if bool_val(m, st, binop('Lt', x, lo)): return lo
+    if bool_val(m, st, binop('Gt', x, hi)): return hi
+    return x
+
+
 @contract(r'^<(u8|u16|u32|u64|usize|i32|i64|isize|char) as (Ord|PartialOrd)>::(cmp|partial_cmp)$')
 def c_int_cmp(m, st, f, a):
     x, y = sv(a[0]), sv(a[1])
